@@ -18,7 +18,8 @@ ASSUMPTIONS = ['np.random.shuffle is deterministic given the global seed (the pe
                'np.floor / float multiply are IEEE binary64 as in Lean Float']
 TRUSTED_BASE = ['harness/props/c18.py (generator, canonicalisation)']
 
-FRACS = [0.0, 0.1, 0.2, 0.25, 0.29, 0.3, 1 / 3, 0.5, 0.57, 0.7, 0.9, 0.99, 1.0]
+FRACS = [0.0, 0.1, 0.2, 0.25, 0.29, 0.3, 1 / 3, 0.5, 0.57, 0.7, 0.9, 0.99, 1.0, 0.15, 0.35, 0.44, 0.6, 0.72, 0.8, 0.85, 0.95]
+NS_EXACT = [10, 20, 25, 40, 50, 100]      # lengths for which many fractions give an exact integer (where floor and ceil roundings differ)
 
 
 def _data(n):
@@ -30,11 +31,11 @@ def _data(n):
 def cases(rng, tier):
     out = []
     nmax = 40 if tier == 'quick' else 120
-    ns = list(range(0, 13)) + [rng.randint(13, nmax) for _ in range(6 if tier == 'quick' else 60)]
+    ns = list(range(0, 13)) + NS_EXACT + [rng.randint(13, nmax) for _ in range(6 if tier == 'quick' else 60)]
     for n in ns:
         combos = [(tf, vf) for tf in FRACS for vf in [None] + FRACS]
         if tier == 'quick':
-            combos = rng.sample(combos, 14)
+            combos = [(tf, None) for tf in FRACS] + rng.sample(combos, 10)      # every fraction for every n, plus random (test, val) pairs
         for tf, vf in combos:
             shuffle = rng.chance(0.4)
             seed = rng.randrange(2 ** 31) if shuffle else None
